@@ -323,4 +323,44 @@ def fam_stream(seed, i):
     return sc
 
 
-FAMILIES = {"core": fam_core, "life": fam_life, "fail": fam_fail, "restart": fam_restart, "timeout": fam_timeout, "timers": fam_timers, "tree": fam_tree, "registry": fam_registry, "stream": fam_stream}
+def fam_broker(seed, i):
+    """C09: 1-3 publishers, 1-4 subscribers, 1-2 topics; subscribe / re-subscribe / unsubscribe / terminate anywhere;
+    publishing through Broker::publish, Addr<Broker>::publish and Context::publish."""
+    rng = random.Random(f"broker-{seed}-{i}")
+    sc = base("broker", seed, i, rng, horizon=4)
+    topics = ["1", "2"][:rng.choice([1, 1, 2])]
+    nsub = rng.randint(1, 4)
+    subs = [f"a{k+1}" for k in range(nsub)]
+    ncl = rng.randint(1, 3)
+    cl = [f"c{k+1}" for k in range(ncl)]
+    handles = {c: {} for c in cl}
+    main = []
+    for a in subs:
+        s0 = [Y] * rng.choice([0, 1])
+        for T in topics:
+            if rng.random() < 0.6:
+                s0.append(eff("subscribe", int(T)))
+        if rng.random() < 0.15 and s0:
+            s0.append(s0[-1])                      # subscribing twice must not duplicate deliveries
+        cfg = {"cap": rng.choice([-1, -1, -1, 0, 1, 2]), "pscr": [Y] * rng.choice([0, 1]), "sscr": [s0], "owning": False}
+        main.append({"op": "spawn", "a": a, "nh": f"r_{a}", "cfg": cfg, "entry": "builder"})
+        holders = rng.sample(cl, rng.randint(1, len(cl)))
+        for c in holders:
+            kind = rng.choice(["clone", "clone", "caller", "sender"])
+            main.append({"op": kind, "h": f"r_{a}", "nh": f"h_{a}_{c}", "to": c})
+            handles[c][f"h_{a}_{c}"] = {"clone": "addr", "caller": "caller", "sender": "sender"}[kind]
+        main.append({"op": "drop", "h": f"r_{a}"})
+    sc["clients"]["main"] = main
+    w = {"publish": 6, "broker": 1.5, "bpublish": 4, "bsubscribe": 1.5, "bunsubscribe": 1.5, "send": 4, "call": 1, "yield": 3, "drop": 1.5, "stop": 1, "stopped": 0.3, "await": 0.3}
+    cnt = [0]
+    for c in cl:
+        def scripts():
+            T = int(rng.choice(topics))
+            return rng.choice([[], [eff("publish", T)], [eff("subscribe", T)], [eff("publish", T), Y], [eff("ctx_stop")], [Y]])
+        p = Prog(rng, c, handles[c], w, scripts, cnt)
+        p.topics = topics
+        sc["clients"][c] = p.run(rng.randint(2, 9))
+    return sc
+
+
+FAMILIES = {"core": fam_core, "life": fam_life, "fail": fam_fail, "restart": fam_restart, "timeout": fam_timeout, "timers": fam_timers, "tree": fam_tree, "registry": fam_registry, "stream": fam_stream, "broker": fam_broker}
